@@ -432,12 +432,53 @@ def report_failures(ctx, cases, results, idxs, source):
             "how": how_to(small), "other_failing_inputs": [public_case(cases[i]) for i in ii[1:4]], "count_in_this_run": len(ii)})
 
 
+def gen_huge(rng):
+    """More than 65 536 cells (block boundaries of chunked counting / scanning), judged by the oracle only:
+    the Gallina literal of such an array would be far too large for vm_compute."""
+    pool = rng.choice(POOLS)
+    ncols = rng.choice([None, None, 2, 3])
+    width = 1 if ncols is None else ncols
+    n = rng.randint(65537 // width + 1, 150000 // width)
+    kind = rng.choice(["skewed-tail", "sparse", "dense"])
+    base = rng.choice(pool)
+    others = [v for v in pool if v != base] or [base]
+    cells = n * width
+    if kind == "sparse":                       # row-scan path
+        data = [base] * cells
+        for q in rng.sample(range(cells), min(cells // 40, 3000)):
+            data[q] = rng.choice(others)
+    elif kind == "dense":
+        data = [rng.choice(pool) if rng.random() < 0.5 else base for _ in range(cells)]
+    else:                                      # the tail beyond the first 65 536 cells overturns the leader of the head
+        a, b = base, others[0]
+        head = [a if i % 2 == 0 else b for i in range(65536)]
+        head[1] = a
+        data = head + [b] * (cells - 65536)
+    c = dict(kind="huge", shape=[n] if ncols is None else [n, ncols], data=data, valid=True, in_dtype="int64")
+    opts = dict(counts=None, common=None, mapping=None)
+    r = rng.random()
+    vals = sorted(set(data))
+    if r < 0.3:
+        opts["common"] = rng.choice(vals)
+    elif r < 0.45:
+        opts["common"] = 424243
+    if rng.random() < 0.4:
+        tg = rng.sample(range(-5, 300), len(vals))
+        if rng.random() < 0.5 and len(vals) > 2:
+            tg[1] = tg[0]                      # many-to-one
+        opts["mapping"] = [[k, t] for k, t in zip(vals + ([opts["common"]] if opts["common"] not in (None, *vals) else []), tg + [7])]
+    c["opts"] = opts
+    c["to"] = dict(mapping=None, dtype=rng.choice([None, "int64"]))
+    c["mode"], c["cm"], c["mk"] = "huge", "huge", "huge"
+    return c
+
+
 def run(ctx):
     quick = ctx.tier == "quick"
     ctx.rule = ("integer arrays (1-D, 2-D incl. 0 rows / 0 columns) over value pools on the dtype boundaries "
                 "(255/256, 65535/65536, 2^31+-1, 2^32, -128/-129, +-2^62, int64 extremes, negatives); kinds: small (N in 0..12), "
                 "sparse (N in 80..400, >=5 distinct values, uncommon cells placed on / under / just over the strategy switch so that the "
-                "row-scan path runs), dense-large (N in 80..300); options: common omitted / in the data / absent, counts omitted / supplied "
+                "row-scan path runs), dense-large (N in 80..300), huge (65 537..150 000 cells, implementation + NumPy oracle only, no Coq literal); options: common omitted / in the data / absent, counts omitted / supplied "
                 "shuffled / with unused keys, mapping none / injective / many-to-one / everything-to-one, to_array with explicit dtype / "
                 "default dtype / mapping; plus a rejected stream (no values and no common, mapping missing a key, dtype too small) on which "
                 "model and code must raise the same exception class.  A case is distinct/non-trivial per (input array, options, to_array "
@@ -509,6 +550,23 @@ def run(ctx):
                                 "uncommon_cells": len(c["data"]) - max(collections.Counter(c["data"]).values()),
                                 "common": c["opts"]["common"], "mapping": c["opts"]["mapping"], "counts_supplied": c["opts"]["counts"] is not None,
                                 "to": c["to"], "path": "rowscan", "dtype": (r["to"] or {}).get("dtype")})
+
+    # ---- huge arrays (> 65 536 cells): implementation + oracle only ----
+    huge = [gen_huge(ctx.rng) for _ in range(3 if quick else 12)]
+    for i, c in enumerate(huge):
+        c["id"] = i
+    hres, _ = run_all(ctx, huge, "huge")
+    hbad = [i for i, r in enumerate(hres) if r["oracle"]["ok"] is not True]
+    ctx.evaluations += len(huge)
+    ctx.coverage["huge_cases_oracle_only"] = {"count": len(huge), "cells": [len(c["data"]) for c in huge],
+                                              "paths": [r["from"].get("path") for r in hres]}
+    for c in huge:
+        ctx.nontrivial.add(("huge", tuple(c["shape"]), hash(tuple(c["data"][:2000])), json.dumps(c["opts"])[:200]))
+    if hbad and not bad:
+        for i in hbad:                       # keep the replay file small
+            huge[i]["data_note"] = "array of %d cells regenerated from the seed; first 40 cells kept" % len(huge[i]["data"])
+        report_failures(ctx, huge, hres, hbad, "huge array (> 65 536 cells) judged by the NumPy oracle")
+        return
 
     # ---- correspondence inside Coq ----
     t2 = time.time()
